@@ -76,6 +76,22 @@ def gen_cases(tier, seed):
         pts = (rng.normal(size=(N, 3)) * 1.2).tolist()  # charges inside the functions, where the Schwarz bound is nearly attained
         q = [float(x) for x in np.exp(rng.uniform(np.log(0.1), np.log(100), size=N))]
         cases.append({"shells": shells, "points": pts, "charges": q, "eri": False, "classes": classes + ["1e", "many-charges:%d" % N, "nsh:%d" % len(ls), "types:" + "".join(tp)], "cost": 200 + N})
+    # concentric shells of different angular momentum and different coordinate type (pure s or p next to Cartesian d, f, g and
+    # the reverse): the Cartesian functions contain the lower harmonics, so these blocks do not vanish
+    for k in range(10 if tier == "quick" else 120):
+        rng = bases.rng_for("C17", seed, tier, "concentric", k)
+        lo, hi = [(0, 2), (1, 3), (0, 2), (2, 4), (1, 3), (0, 4)][k % 6]
+        c0 = rng.normal(size=3)
+        sh = [bases.rand_shell(rng, l, center=c0, emin=0.2, emax=5.0, Kmax=2, Mmax=2) for l in (lo, hi)]
+        for s_ in sh:
+            s_.pop("_cls")
+        sh[0]["t"], sh[1]["t"] = ("p", "c") if k % 4 != 3 else ("c", "p")
+        third = bases.rand_shell(rng, int(rng.integers(0, 2)), center=c0 + rng.normal(size=3) * 0.8, emin=0.2, emax=3.0, Kmax=2, Mmax=1)
+        third.pop("_cls")
+        shells = [sh[0], sh[1], third] if k % 2 == 0 else [sh[1], third, sh[0]]
+        pts = [[float(v) for v in c0 + 0.4 * rng.normal(size=3)] for _ in range(2)]
+        cases.append({"shells": shells, "points": pts, "charges": [1.0, 2.5], "eri": bool(k % 5 == 4 and hi <= 2),
+                      "classes": ["concentric-mixed-types", "l:%d+%d" % (lo, hi), "eri" if (k % 5 == 4 and hi <= 2) else "1e", "nsh:3"], "cost": 30})
     # bridged pairs: two contracted shells A, B a few bohr apart whose tight primitives do not overlap while their diffuse
     # ones do, and a diffuse shell C in between that overlaps both. If the block (A, B) is lost or damaged (dropped by a
     # screening rule, taken from another pair, ...) the Gram matrix of {A, B, C} stops being semi-definite:
